@@ -268,8 +268,11 @@ def run_bigfilter(ctx, corr, binp, drv, reps):
     corr.extra['large_set_filter_runs'] = runs
 
 
-MODEL_MAX_LONG = 8192   # longest pattern/name the extracted model+spec evaluate in the quick tier (quadratic: 16 pairs of
-                        # 8192 bytes take 3 s, of 65536 bytes 390 s, 4 pairs with 5000 classes 13 s)
+MODEL_MAX_LONG = 8192   # longest pattern/name sent through the extracted model+spec in the QUICK tier (16 pairs of 8192 bytes: 3 s
+                        # of CPU). The thorough tier sends every size: the 21 pairs above it (65536 bytes, 5000 classes) take 1-5 s
+                        # each (19 s of CPU, 6 s wall on 16 cores). The model is quadratic where the implementation is: a 65535-byte
+                        # starred chunk retried at 65534 start positions costs the model 390 s and the Go code 9 s, so at that size
+                        # the non-matching name of the shape star-long-suffix is kept short (harness/c17 longCases).
 
 
 def short(b):
